@@ -17,8 +17,23 @@ import (
 //
 // The body mirrors Translate step for step.
 func TranslateWithPlan(ctx context.Context, optimizedPlan optimize.Plan, kindMapper pgsql.KindMapper, parameters map[string]any, graphID int32) (Result, error) {
+	return TranslateWithPlanOptions(ctx, optimizedPlan, kindMapper, parameters, graphID, VerifTranslateOptions{})
+}
+
+// VerifTranslateOptions switches off the lowerings that the translator derives from the query itself rather than
+// from the lowering plan, so that "all optimisation disabled" can be had for them as well.
+type VerifTranslateOptions struct {
+	// NoCollectIDMembership: collect(entity) lists that are only used for membership tests are collected as entity
+	// composites like any other list, not as id arrays.
+	NoCollectIDMembership bool
+}
+
+// TranslateWithPlanOptions is TranslateWithPlan with VerifTranslateOptions.
+func TranslateWithPlanOptions(ctx context.Context, optimizedPlan optimize.Plan, kindMapper pgsql.KindMapper, parameters map[string]any, graphID int32, options VerifTranslateOptions) (Result, error) {
 	translator := NewTranslator(ctx, kindMapper, parameters, graphID)
-	if membershipAliases, err := collectIDMembershipAliases(optimizedPlan.Query); err != nil {
+	if options.NoCollectIDMembership {
+		translator.collectIDMembershipAliases = map[pgsql.Identifier]struct{}{}
+	} else if membershipAliases, err := collectIDMembershipAliases(optimizedPlan.Query); err != nil {
 		return Result{}, err
 	} else {
 		translator.collectIDMembershipAliases = membershipAliases
